@@ -61,6 +61,9 @@ def blocks(tier, seed):
     for part in ("base", "rules", "gridseq"):
         out.append({"kind": "droplets", "seedv": seed % 3, "part": part})
     out.append({"kind": "nonconvex"})
+    # droplet counting on cylindrical grids (droplets sit on the axis; the structure-factor methods are documented as Cartesian-only)
+    for pz in (False, True):
+        out.append({"kind": "cyl-detect", "periodic_z": pz})
     out.append({"kind": "small", "shape": [6]})
     out.append({"kind": "small", "shape": [2, 3]})
     return out
@@ -141,6 +144,12 @@ def cases(block):
                 if block.get("mask"):
                     c["mask"] = block["mask"]
                 yield c
+    elif block["kind"] == "cyl-detect":
+        for z0 in (0.0, -7.5, 20.0):
+            for nz in (24, 30):
+                # thin on-axis blobs, far enough apart that their equal-volume spheres (radius 1.9) are disjoint under every translation
+                for blobs in ([(3, 6)], [(2, 5), (12, 15)], [(1, 4), (9, 12), (17, 20)]):
+                    yield {"kind": "cyl-detect", "periodic_z": block["periodic_z"], "z0": z0, "nz": nz, "blobs": [list(b) for b in blobs]}
     elif block["kind"] == "nonconvex":
         for name in ("horseshoe", "ring+dot", "comb"):
             yield {"kind": "nonconvex", "shape": [14, 12], "name": name}
@@ -224,6 +233,8 @@ def run_case(case, ctx):
 
         ctx.count("grid-sequences")
         return core.run_sequence_in_fork(run_case, case["sequence"], ctx, tag={"history": True})
+    if case["kind"] == "cyl-detect":
+        return run_cyl_detect(case, ctx)
     f = build(case)
     shape = f.shape
     dim = len(shape)
@@ -393,6 +404,48 @@ def run_case(case, ctx):
         ctx.count("non-constant-field")
 
 
+def run_cyl_detect(case, ctx):
+    from pde import CylindricalSymGrid, ScalarField
+
+    from droplets import get_length_scale
+
+    nz, z0, pz = case["nz"], case["z0"], case["periodic_z"]
+    f = np.zeros((6, nz))
+    for a, b in case["blobs"]:
+        f[:2, a:b] = 1.0
+    tags = {"kind": "cyl-detect", "periodic_z": pz, "method": "droplet_detection"}
+
+    def ls(data, lam, **kw):
+        ctx.op()
+        try:
+            grid = CylindricalSymGrid(6.0 * lam, (z0 * lam, (z0 + 0.75 * nz) * lam), (6, nz), periodic_z=pz)
+            return float(get_length_scale(ScalarField(grid, data), method="droplet_detection", **kw))
+        except Exception as e:  # noqa
+            return repr(e)
+
+    ref = ls(f, 1.0)
+    ctx.check("C17.no-raise", not isinstance(ref, str), {"exc": ref}, tags)
+    if isinstance(ref, str):
+        return
+    ctx.count("cylindrical-grids-counted")
+    ctx.check("C17.finite", math.isfinite(ref) and ref > 0, {"length": ref}, tags)
+    for lam in (1e-3, 0.39, 3.0, 100.0):
+        val = ls(f, lam)
+        ctx.check("C17.stretch", (not isinstance(val, str)) and abs(val - ref * lam) <= 1e-9 * abs(ref * lam), {"length": val, "expected": ref * lam, "factor": lam}, tags)
+    for c in (0.5, 1e3, 1e-9):
+        val = ls(c * f, 1.0, threshold="auto")  # positive scaling with the automatic threshold rule (as for the Cartesian fields)
+        b2 = ls(f, 1.0, threshold="auto")
+        ctx.check("C17.field-scale", (not isinstance(val, str)) and (not isinstance(b2, str)) and abs(val - b2) <= 1e-9 * abs(b2), {"c": c, "length": val, "base": b2}, tags)
+    if pz:
+        # translations along the periodic axis that keep every blob in one piece
+        for sh in range(1, nz):
+            g = np.roll(f, sh, axis=1)
+            if g[0, 0] and g[0, -1]:
+                continue
+            val = ls(g, 1.0)
+            ctx.check("C17.shift", (not isinstance(val, str)) and abs(val - ref) <= 1e-9 * abs(ref), {"shift": sh, "length": val, "base": ref}, tags)
+
+
 def expected_positive(tier):
     return ["C17.stretch", "C17.field-scale", "C17.shift", "C17.peak", "C17.detection", "non-constant-field", "equal-cell-counts-different-spacings", "partly-periodic-boxes",
-            "translated-images-with-droplets", "fields-with->=2-overlapping-sphere-pairs", "grid-sequences", "fields-where-threshold-rules-disagree"]
+            "translated-images-with-droplets", "fields-with->=2-overlapping-sphere-pairs", "grid-sequences", "fields-where-threshold-rules-disagree", "cylindrical-grids-counted"]
